@@ -418,7 +418,11 @@ func (fv *FnVerifier) ifaceContract(recvT types.Type, method string) *FuncContra
 	if !ok || n.Obj().Pkg() == nil {
 		return nil
 	}
-	return fv.eng.cs.Funcs["iface#"+n.Obj().Pkg().Name()+"."+n.Obj().Name()+"."+method]
+	if fc := fv.eng.cs.Funcs["iface#"+n.Obj().Pkg().Name()+"."+n.Obj().Name()+"."+method]; fc != nil {
+		return fc
+	}
+	// interface declared in the package that holds the contract file: undotted receiver type
+	return fv.eng.cs.Funcs[n.Obj().Pkg().Path()+"#"+n.Obj().Name()+"."+method]
 }
 
 func isLoggerPkg(p string) bool {
@@ -620,13 +624,18 @@ func (fv *FnVerifier) applyContract(fc *FuncContract, obj *types.Func, sig *type
 	}
 	// receiver non-nil (static method on pointer receiver)
 	if hasRecv && ifaceT == nil {
-		if _, ok := args[0].T.Underlying().(*types.Pointer); ok && fv.fc.NoPanic {
+		if _, ok := args[0].T.Underlying().(*types.Pointer); ok && fv.fc.NoPanic && !fv.lemmaMode {
 			fv.oblige("nil", "recv:"+callee, reach, "(not (= "+args[0].S+" 0))", pos, "method call on nil receiver")
 		}
 	}
 	for _, c := range fc.Requires {
 		for _, part := range ce.evalClause(c) {
-			fv.oblige("call-pre", callee+":"+part.label, reach, part.term, pos, c.Src)
+			if fv.lemmaMode {
+				fv.q.assume(part.term)
+				fv.note("lemma hypothesis: precondition of " + callee + " (" + c.Src + ")")
+			} else {
+				fv.oblige("call-pre", callee+":"+part.label, reach, part.term, pos, c.Src)
+			}
 		}
 	}
 	for _, h := range fc.Holds {
@@ -690,12 +699,16 @@ func (fv *FnVerifier) applyContract(fc *FuncContract, obj *types.Func, sig *type
 		}
 		pn := pureFnName(obj)
 		fv.q.declareFun(pn, sorts, fv.sortOf(sig.Results().At(0).Type()))
+		fv.pureRangeAxiom(pn, sorts, sig.Results().At(0).Type())
 		app := pn
 		if len(terms) > 0 {
 			app = "(" + pn + " " + strings.Join(terms, " ") + ")"
 		}
 		fv.q.assume("(= " + rvals[0].S + " " + app + ")")
 		fv.note("pure: " + obj.FullName() + " is treated as a function of its argument values")
+		if ifaceT != nil {
+			fv.pureApps = append(fv.pureApps, pureApp{obj: obj, recv: terms[0], nargs: len(terms) - 1, res: rvals[0]})
+		}
 	}
 	ce2 := fv.newCEnv(names, st, pre)
 	ce2.pkgPath = ce.pkgPath
